@@ -1535,3 +1535,20 @@ def sk_check_param_grid(I, args, kwargs):
 def sk_check_cv(I, args, kwargs):
     USED.add("sklearn.model_selection.check_cv(cv): returns an object that has a split method unchanged (assumed)")
     return args[0]
+
+
+@lib("logging.getLogger", "logging.StreamHandler")
+def _logging(I, args, kwargs):
+    o = Opaque("logger")
+
+    def noop(I2, recv, a, kw):
+        I2.ctx.note("logging calls dropped")
+        return None
+    o.opaque_methods = {n: noop for n in ("warn", "warning", "info", "debug", "error", "addHandler", "setLevel")}
+    return o
+
+
+@lib("pandas.Timestamp.now")
+def pd_ts_now(I, args, kwargs):
+    I.ctx.note("pd.Timestamp.now() values are opaque")
+    return Opaque("timestamp")
